@@ -5,6 +5,7 @@ import (
 	"fmt"
 	"testing"
 
+	"github.com/coyim/otr3"
 	"pgregory.net/rapid"
 
 	"verif/harness/ref"
@@ -146,16 +147,22 @@ func runFragRecv(c *FragRecvCase) *sim.Outcome {
 	msgNo := 0
 	var cur [][]byte // payload pieces of the message currently being sent
 	var curText []byte
-	var curIsData, curDone bool
+	var curIsData, curIsErr, curDone bool
 	next := 0 // index of the next piece to send (0-based)
 	completedThenMore, oddMid := false, false
 	completed := 0
 	ambiguous := true // model state unknown to be equal: force a restart first
-	newMsg := func(data bool) {
+	newMsg := func(kind int) {
+		data := kind == 1
+		curIsErr = kind == 2
 		msgNo++
 		n := 1 + (c.N+msgNo)%5
 		var whole []byte
-		if data {
+		if curIsErr {
+			// an error message of the peer's client, in pieces: it is reported to the application, once
+			curText = []byte(fmt.Sprintf("?OTR Error: trouble no %s", token(1, msgNo)))
+			whole = curText
+		} else if data {
 			curText = []byte(token(1, msgNo))
 			whole = m.R.Send(curText)
 		} else {
@@ -175,11 +182,40 @@ func runFragRecv(c *FragRecvCase) *sim.Outcome {
 		}
 		next = 0
 	}
+	errSeen, errWanted := 0, 0
+	countErr := func(c2 *sim.Call) *sim.Call {
+		for _, e := range c2.NewMsg(m.A) {
+			if e.Ev == otr3.MessageEventReceivedMessageGeneralError {
+				errSeen++
+			}
+		}
+		return c2
+	}
 	send := func(k, n int, payload []byte, st, rt uint32) *sim.Call {
-		return m.AReceive(ref.MakeFragment(v3, st, rt, k, n, payload))
+		return countErr(m.AReceive(ref.MakeFragment(v3, st, rt, k, n, payload)))
 	}
 	expect := func(c2 *sim.Call, f ref.Fragment, what string) bool {
 		whole, done := model.Add(f)
+		nErr := 0
+		for _, e := range c2.NewMsg(m.A) {
+			if e.Ev == otr3.MessageEventReceivedMessageGeneralError {
+				nErr++
+			}
+		}
+		if wantErr := done && curIsErr; (nErr > 0) != wantErr || nErr > 1 {
+			o.Fail("C14/processed-twice", "%s: %d error message(s) of the peer were reported to the application (complete per the reassembly rules: %v, the message in pieces is an error message: %v)", what, nErr, done, curIsErr)
+			return false
+		}
+		if done && curIsErr {
+			completed++
+			errWanted++
+			if c2.HasPl && len(c2.Plain) > 0 {
+				o.Fail("C14/spurious-delivery", "%s completed an error message and Receive returned text %.40q", what, c2.Plain)
+				return false
+			}
+			o.Class("error-message-in-pieces")
+			return true
+		}
 		if done {
 			completed++
 			want := whole
@@ -207,10 +243,22 @@ func runFragRecv(c *FragRecvCase) *sim.Outcome {
 		}
 		return true
 	}
-	newMsg(false)
+	kindOf := func(a int) int {
+		switch {
+		case a%3 == 0:
+			return 1
+		case a%5 == 2:
+			return 2
+		}
+		return 0
+	}
+	newMsg(0)
 	for _, ev := range c.Evs {
 		if o.Violation != "" {
 			return o
+		}
+		if errSeen != errWanted {
+			return o.Fail("C14/processed-twice", "%d error message(s) of the peer arrived in pieces and were completed, %d were reported to the application (an arrival that completes nothing must not make an earlier message be processed again)", errWanted, errSeen)
 		}
 		kind := ev.K
 		if ambiguous && kind != "plain" && kind != "garbage" && kind != "foreign" && kind != "badtag" && kind != "zero" && kind != "over" {
@@ -220,7 +268,7 @@ func runFragRecv(c *FragRecvCase) *sim.Outcome {
 		switch kind {
 		case "next":
 			if next >= len(cur) {
-				newMsg(ev.A%3 == 0)
+				newMsg(kindOf(ev.A))
 			}
 			f := ref.Fragment{V3: v3, K: next + 1, N: len(cur), Payload: cur[next]}
 			c2 := send(f.K, f.N, f.Payload, peer, own)
@@ -229,7 +277,7 @@ func runFragRecv(c *FragRecvCase) *sim.Outcome {
 			}
 			next++
 		case "restart":
-			newMsg(ev.A%3 == 0)
+			newMsg(kindOf(ev.A))
 			f := ref.Fragment{V3: v3, K: 1, N: len(cur), Payload: cur[0]}
 			c2 := send(1, f.N, f.Payload, peer, own)
 			ambiguous = false
@@ -310,7 +358,7 @@ func runFragRecv(c *FragRecvCase) *sim.Outcome {
 			// (tag-less under version 3, tagged under version 2) and a payload of its own; then the genuine last piece.
 			// Nothing but the genuine message may ever come out.
 			if next >= len(cur) || len(cur) < 2 {
-				newMsg(false)
+				newMsg(0)
 				if len(cur) < 2 {
 					continue
 				}
@@ -328,11 +376,15 @@ func runFragRecv(c *FragRecvCase) *sim.Outcome {
 			if ev.A%3 == 2 {
 				k = 1 // a first piece in the other format: must not restart the reassembly with foreign content either
 			}
-			c2 := m.AReceive(ref.MakeFragment(!v3, peer, own, k, len(cur), []byte("Zm9yZWlnbiBwaWVjZQ")))
+			c2 := countErr(m.AReceive(ref.MakeFragment(!v3, peer, own, k, len(cur), []byte("Zm9yZWlnbiBwaWVjZQ"))))
 			if c2.HasPl {
 				return o.Fail("C14/spurious-delivery", "a piece in the other version's header format (index %d of %d) joined a reassembly: Receive returned %.60q", k, len(cur), c2.Plain)
 			}
+			errBefore := errSeen
 			c3 := send(len(cur), len(cur), cur[len(cur)-1], peer, own)
+			if curIsErr && errSeen == errBefore+1 {
+				errWanted++ // (the genuine last piece may or may not complete the genuine message)
+			}
 			want := curText
 			if c3.HasPl && !bytes.Equal(c3.Plain, want) {
 				return o.Fail("C14/spurious-delivery", "after a piece in the other header format the genuine last piece made Receive return %.60q, which is not the message that was sent", c3.Plain)
@@ -377,7 +429,7 @@ func runFragRecv(c *FragRecvCase) *sim.Outcome {
 			if v3 {
 				forms = append(forms, "?OTR|zz|yy,1,2,a,", fmt.Sprintf("?OTR|%08x|%08x,1,2", peer, own))
 			}
-			c2 := m.AReceive([]byte(forms[ev.A%len(forms)]))
+			c2 := countErr(m.AReceive([]byte(forms[ev.A%len(forms)])))
 			if c2.HasPl {
 				return o.Fail("C14/spurious-delivery", "an unparsable fragment made Receive return %.60q", c2.Plain)
 			}
@@ -406,6 +458,9 @@ func runFragRecv(c *FragRecvCase) *sim.Outcome {
 			oddMid = oddMid || midStream
 		}
 		m.QtoR = nil
+	}
+	if errSeen != errWanted && o.Violation == "" {
+		return o.Fail("C14/processed-twice", "%d error message(s) of the peer arrived in pieces and were completed, %d were reported to the application", errWanted, errSeen)
 	}
 	if completed > 0 {
 		o.Class("completed")
